@@ -85,8 +85,8 @@ def timeNowAllowed : List (String × String) :=
   [("x/coinomics/keeper/abci.go", "Keeper.EndBlocker"), ("x/epochs/keeper/abci.go", "Keeper.BeginBlocker"),
    ("x/ucdao/module.go", "AppModule.InitGenesis")]
 
-/-- goroutines: the TPS counter (touches no store), the v1.7.5 upgrade's collection workers (results sorted before
-    use), the tracing query's timeout watchdog (query path) -/
+/-- goroutines: the TPS counter (touches no store), the v1.7.5 upgrade's collection workers (appends under a mutex —
+    `upgrade_workers_serialised` — and results sorted before use), the tracing query's timeout watchdog (query path) -/
 def goAllowed : List (String × String) :=
   [("app/app.go", "NewHaqq"), ("app/upgrades/v1.7.5/handler.go", "TurnOffLiquidVesting"),
    ("x/evm/keeper/grpc_query.go", "Keeper.traceTx")]
@@ -99,6 +99,11 @@ theorem commit_iterates_sorted :
 theorem no_unsorted_map_range : Facts.mapRangeSites.all mapRangeOk = true := by decide
 
 theorem no_wallclock_in_state : Facts.timeNowSites.all (fun s => timeNowAllowed.contains s) = true := by decide
+
+/-- the only goroutines that collect results for consensus state (the v1.7.5 upgrade's workers) append to their
+    shared slices under a mutex (before the repair 257c969 they did not, and the set of redeemed accounts depended on
+    scheduling); the slices are sorted before use -/
+theorem upgrade_workers_serialised : Facts.upgrade175WorkersLockAppends = true := by decide
 
 theorem goroutines_listed : Facts.goStmtSites.all (fun s => goAllowed.contains s) = true := by decide
 
